@@ -308,6 +308,13 @@ def idem_sig(r):
             changed += a[i1:i2] + b[j1:j2]
     if changed and all(not l.strip() for l in changed):
         return "blank-lines"
+    # line-wise comparison of the two outputs modulo one kind of difference
+    if len(a) == len(b):
+        diff = [(x, y) for x, y in zip(a, b) if x != y]
+        if diff and all(x.strip() == y.strip() for x, y in diff):
+            return "indent-only"
+        if diff and all(x.rstrip().rstrip(",") == y.rstrip().rstrip(",") for x, y in diff):
+            return "trailing-comma"
     return "other"
 
 
